@@ -57,6 +57,7 @@ func (c *containerServer) handleExecve(cmd *execCmd, msg unixsocket.Msg) error {
 		cmd.Argv[0] = exePath
 	}
 
+	synced := false // host acknowledged the sync (cmdOk received)
 	syncPid := func(pid int) error {
 		msg := unixsocket.Msg{
 			Cred: &syscall.Ucred{
@@ -75,6 +76,7 @@ func (c *containerServer) handleExecve(cmd *execCmd, msg unixsocket.Msg) error {
 		if cmd.Cmd == cmdKill {
 			return fmt.Errorf("sync func: received kill")
 		}
+		synced = true
 		return nil
 	}
 	var syncFunc func(pid int) error
@@ -119,7 +121,17 @@ func (c *containerServer) handleExecve(cmd *execCmd, msg unixsocket.Msg) error {
 		if len(cmd.Argv) > 0 {
 			s = cmd.Argv[0]
 		}
-		return c.sendErrorReply("start: %s: %v", s, err)
+		if err := c.sendErrorReply("start: %s: %v", s, err); err != nil {
+			return err
+		}
+		if synced {
+			// the host has acknowledged the sync, so it answers whatever comes next with kill
+			// (exactly as for a finished program): consume it to stay in step
+			if _, _, err := c.recvCmd(); err != nil {
+				return err
+			}
+		}
+		return nil
 	}
 	if cmd.SyncAfter {
 		if err := syncPid(1); err != nil {
